@@ -198,9 +198,21 @@ func replayCli(args []string) (any, error) {
 		}
 		defer os.RemoveAll(dir)
 		main := cliScript(v.Cfg.Kind, v.Cfg.Input)
-		scripts := map[string]string{"main.p": main}
-		_ = os.WriteFile(filepath.Join(ws, "main.p"), []byte(main), 0o644)
-		if v.Cfg.Mode == "workspace" {
+		mainName := "main.p"
+		if v.Cfg.Mode == "workspace_ppl" {
+			mainName = "main.ppl"
+		}
+		scripts := map[string]string{mainName: main}
+		_ = os.WriteFile(filepath.Join(ws, mainName), []byte(main), 0o644)
+		if v.Cfg.Mode != "single" {
+			// a decoy with the other extension and the same stem must not be picked
+			decoy := "main.ppl"
+			if mainName == "main.ppl" {
+				decoy = "main.p"
+			}
+			scripts[decoy] = "add_key(decoy, 1)\n"
+			_ = os.WriteFile(filepath.Join(ws, decoy), []byte(scripts[decoy]), 0o644)
+			_ = os.MkdirAll(filepath.Join(ws, "sub.p"), 0o755) // a directory named like a script is skipped
 			// siblings: one .p, one .ppl, and a file that is not a script
 			scripts["lib.p"] = "add_key(fromlib, 1)\n"
 			scripts["other.ppl"] = "add_key(fromother, 1)\n"
@@ -220,8 +232,8 @@ func replayCli(args []string) (any, error) {
 			_ = os.WriteFile(inPath, data, 0o644)
 		}
 		var cmd *exec.Cmd
-		cliArgs := []string{"run", "-s", "main.p", "--output-type", v.Cfg.Output}
-		if v.Cfg.Mode == "workspace" {
+		cliArgs := []string{"run", "-s", mainName, "--output-type", v.Cfg.Output}
+		if v.Cfg.Mode != "single" {
 			cliArgs = append(cliArgs, "-w", ws)
 		} else {
 			// single file: no workspace, the script given by its path
@@ -274,8 +286,7 @@ func replayCli(args []string) (any, error) {
 			return nil
 		}
 		// (i) identical to the library API on the same script and input
-		name := "main.p"
-		lib, lerr, rerr := libraryResult(scripts, name, v.Cfg.Input, data, start)
+		lib, lerr, rerr := libraryResult(scripts, mainName, v.Cfg.Input, data, start)
 		if lerr != nil || rerr != nil || lib == nil {
 			bad(fmt.Sprintf("library API does not produce a point here: %v %v", lerr, rerr))
 			return nil
@@ -308,6 +319,10 @@ func replayCli(args []string) (any, error) {
 			}
 		} else if v.Cfg.Input == "lineprotocol" && !got.Time.Equal(time.Unix(1600000000, 0)) {
 			bad(fmt.Sprintf("time %v, the input point has %v", got.Time.UTC(), time.Unix(1600000000, 0).UTC()))
+			return nil
+		}
+		if _, dec := got.Fields["decoy"]; dec {
+			bad("the script with the other extension was run instead of the selected one")
 			return nil
 		}
 		_, hasNf := got.Fields["nf"]
